@@ -1,13 +1,12 @@
 #!/usr/bin/env python3
 """Builds /verif/findings/C03.json, C04.json, C05.json from the --list-failures output of the three checks.
 
-Input (produced with ./vcheck CNN quick|thorough --list-failures, see notes/C03.md):
-  T0.<ID>.<tier>.json  failing obligations on the unchanged tree
-  T1.<ID>.<tier>.json  ... on the tree with this group's proposed fixes applied
-  T2.<ID>.<tier>.json  ... on the tree with this group's and the other groups' pending SMB fixes applied
+Input (produced with ./vcheck CNN quick|thorough --list-failures, see notes/C03.md), in /verif/.work/smb345:
+  pre/T0.<ID>.<tier>.json  failing obligations on the tree before this group's five fixes were applied
+  T1.<ID>.<tier>.json      failing obligations on the current /repo (fixes of all groups applied)
 Output: one entry per failing obligation key.
-  status "fixed"/commit PENDING : fails on T0, passes on T1 (attributed to one fix patch by command name)
-  status "known"                : fails on T1 or T2 -> needs a root cause from the reviewed table below;
+  status "fixed" + commit : failed on T0, passes on T1 (attributed to one fix commit by command name)
+  status "known"          : fails on T1 -> needs a root cause from the reviewed table below;
                                   a key without a root cause is an ERROR (the table must be extended by a human,
                                   never filled in automatically).
 The root-cause texts were written after reproducing each cause against the real code (notes/C0x.md).
@@ -65,12 +64,12 @@ CAUSE = {
  'PANIC_LEN': "length field used as slice bound without a check (also reported, per panic site, by C07).",
 }
 
-FIX = {  # command / area -> (patch slug, what failed)
- 'WriteRequest': ('C04-writerequest-data-before-parameters', "WriteRequest.Marshal wrote the Data buffer in front of WordCount instead of into the data block"),
- 'TreeConnectRequest': ('C04-treeconnectrequest-unmarshal-offsets', "TreeConnectRequest.Unmarshal decoded Password and Service from offset 0 of the data block (copies of Path)"),
- 'NegotiateRequest': ('C04-negotiaterequest-wordcount-is-not-a-word', "NegotiateRequest.Unmarshal looked for its WordCount field in the (empty) parameter words and rejected every negotiate request"),
- 'Dialects': ('C05-dialects-one-format-byte-per-dialect', "Dialects wrote one 0x02 for the whole NUL-joined list instead of one 0x02-prefixed entry per dialect (and decoded likewise)"),
- 'NegotiateResponse': ('C04-negotiateresponse-terminated-names', "NegotiateResponse.Marshal wrote DomainName without terminator and no ServerName; Unmarshal of that encoding panicked"),
+FIX = {  # command / area -> (commit, what failed)
+ 'WriteRequest': ('66ba017', "WriteRequest.Marshal wrote the Data buffer in front of WordCount instead of into the data block"),
+ 'TreeConnectRequest': ('9522a4f', "TreeConnectRequest.Unmarshal decoded Password and Service from offset 0 of the data block (copies of Path)"),
+ 'NegotiateRequest': ('f5ae37a', "NegotiateRequest.Unmarshal looked for its WordCount field in the (empty) parameter words and rejected every negotiate request"),
+ 'Dialects': ('3f6f4af', "Dialects wrote one 0x02 for the whole NUL-joined list instead of one 0x02-prefixed entry per dialect (and decoded likewise)"),
+ 'NegotiateResponse': ('ad36b72', "NegotiateResponse.Marshal wrote DomainName without terminator and no ServerName; Unmarshal of that encoding panicked"),
 }
 
 TRANS = {'TransactionRequest','TransactionSecondaryRequest','Transaction2Request','Transaction2SecondaryRequest','NtTransactRequest','NtTransactSecondaryRequest','IoctlRequest','IoctlResponse'}
@@ -263,7 +262,7 @@ def fix_for(key):
 def load(tree, prop):
     out = {}
     for tier in ('quick', 'thorough'):
-        fn = f'{W}/{tree}.{prop}.{tier}.json'
+        fn = f'{W}/pre/{tree}.{prop}.{tier}.json' if tree == 'T0' else f'{W}/{tree}.{prop}.{tier}.json'
         if not os.path.exists(fn):
             print('missing', fn, file=sys.stderr)
             continue
@@ -278,27 +277,26 @@ def load(tree, prop):
 def main():
     bad = 0
     for prop in ('C03', 'C04', 'C05'):
-        t0, t1, t2 = load('T0', prop), load('T1', prop), load('T2', prop)
+        t0, t1 = load('T0', prop), load('T1', prop)
         entries = []
         unknown = []
-        known_keys = dict(t2)
-        known_keys.update(t1)
+        known_keys = dict(t1)
         for key in sorted(known_keys):
             cs = cause(key)
             if not cs:
                 unknown.append(key)
                 continue
             what = ' + '.join(cs) + ': ' + ' || '.join(CAUSE[c] for c in cs)
-            wit = t0.get(key) or known_keys[key]
-            entries.append({"property": prop, "key": key, "status": "known", "what": what, "witness": wit})
+            wit = known_keys[key]
+            entries.append({"property": prop, "key": key, "status": "known", "what": what, "witness": wit[:700]})
         for key in sorted(set(t0) - set(known_keys)):
             fx = fix_for(key)
             if not fx:
                 unknown.append('FIXED-BUT-UNATTRIBUTED ' + key)
                 continue
-            slug, what = FIX[fx]
-            entries.append({"property": prop, "key": key, "status": "fixed", "commit": "PENDING",
-                            "what": f"fixed: property={prop} PENDING {what} (fixes/{slug}.patch)", "witness": t0[key]})
+            commit, what = FIX[fx]
+            entries.append({"property": prop, "key": key, "status": "fixed", "commit": commit,
+                            "what": f"fixed: property={prop} {commit} {what}", "witness": t0[key][:700]})
         print(prop, 'known', sum(1 for e in entries if e['status'] == 'known'), 'fixed', sum(1 for e in entries if e['status'] == 'fixed'), 'UNCLASSIFIED', len(unknown))
         for k in unknown:
             print('   ?', k, '|', (known_keys.get(k) or t0.get(k.replace('FIXED-BUT-UNATTRIBUTED ', '')) or '')[:300])
